@@ -458,7 +458,8 @@ def analyse(rec, c, k, out_path, inp_path, payload):
     strict = c['mode'] == 'strict'
     fatal = rec['fatal']
     pool = k.pools[0] if k.pools else None
-    tasks = pool.tasks if pool else []
+    tasks = [t for pl_ in k.pools for t in pl_.tasks]     # a driver may use several pools (e.g. a retry pass)
+    tasks_by_id = {t.idx: t for t in tasks}
 
     def V(prop, cls, cause, detail):
         viol.append({'property': prop, 'cls': cls, 'cause': cause, 'detail': detail})
@@ -479,10 +480,17 @@ def analyse(rec, c, k, out_path, inp_path, payload):
     lock_events = collections.defaultdict(list)
     lost_buffers = collections.defaultdict(int)
     sampled = collections.defaultdict(bytes)     # task -> bytes appended to its private input file
+    iters, iters_by_file, last_iter = [], {}, {}
     for kind, n in notes:
         t = n.get('task')
         if kind == 'sim_end':
             (sim_ok if n['ok'] else sim_fail)[t] += 1
+            it = last_iter.get(t)
+            if it is not None and it['sim'] is None:
+                it['sim'] = bool(n['ok'])
+            else:
+                it = {'task': t, 'entries': b'', 'sim': bool(n['ok'])}     # simulator call without a visible input file
+                iters.append(it)
         elif kind == 'task_end':
             task_ok[t] = n['ok']
         elif kind == 'task_start':
@@ -493,16 +501,27 @@ def analyse(rec, c, k, out_path, inp_path, payload):
             lost_buffers[t] += n['nbytes']
         elif kind == 'write' and n['path'].startswith('tmp/') and t is not None:
             sampled[t] += n['data']
+            # one simulated iteration = one private input file (a pool task may run several iterations, e.g. batching)
+            it = iters_by_file.get((t, n['path']))
+            if it is None:
+                it = {'task': t, 'entries': b'', 'sim': None}
+                iters_by_file[(t, n['path'])] = it
+                iters.append(it)
+                last_iter[t] = it
+            it['entries'] += n['data']
     n_sub = len(tasks)
     rec['tasks'] = n_sub
-    broken = bool(pool is not None and pool.broken)
+    broken = any(pl_.broken for pl_ in k.pools)
     rec['pool_broken'] = broken
-    if pool is not None and n_sub != c['iterations'] and (strict or not broken):
-        V('C13', 'iteration_count', 'submitted', f"{n_sub} tasks submitted for ITERATIONS={c['iterations']}")
+    rec['pools'] = len(k.pools)
+    if pool is not None and n_sub < c['iterations'] and (strict or not broken):
+        # (more tasks than ITERATIONS is legal - e.g. a retry pass; fewer means requested iterations were never run)
+        V('C13', 'iteration_count', 'fewer_than_requested', f"{n_sub} tasks submitted for ITERATIONS={c['iterations']}")
     # an iteration is "successfully simulated" when the simulator call made for it returned normally
-    successes = [t.idx for t in tasks if sim_ok.get(t.idx, 0) >= 1]
+    ok_iters = [it for it in iters if it['sim'] is True]
+    successes = [it['task'] for it in ok_iters]          # one entry per successful simulator call
     rec['successes'] = len(successes)
-    rec['failed_iterations'] = sum(1 for t in tasks if sim_fail.get(t.idx, 0) >= 1 and not sim_ok.get(t.idx, 0))
+    rec['failed_iterations'] = sum(1 for it in iters if it['sim'] is False)
     if rec['failed_iterations']:
         k.fault_fired['iter_fail'] += rec['failed_iterations']
         rec['fault_fired'] = dict(k.fault_fired)
@@ -541,9 +560,10 @@ def analyse(rec, c, k, out_path, inp_path, payload):
         if len(toks) != len(c['outputs']):
             V('C14', 'row_malformed', 'column_count', f"line {lineno}: {len(toks)} output tokens for {len(c['outputs'])} OUTPUTs")
     # --- C13: row count ---------------------------------------------------------------
-    task_key = {}
-    for t, b in sampled.items():
-        task_key[t] = b.decode('utf-8', 'replace').replace('\n', ';').replace(', ', ':')
+    def _key(b):
+        return b.decode('utf-8', 'replace').replace('\n', ';').replace(', ', ':')
+    for it in iters:
+        it['key'] = _key(it['entries'])
     row_keys = collections.Counter(';'.join(f'{n}:{v}' for n, v in pairs) + ';' for _, _, pairs, _ in rows)
     wrote = collections.Counter()           # task -> newline-terminated lines it put into the result file itself
     worker_writes = False
@@ -555,20 +575,20 @@ def analyse(rec, c, k, out_path, inp_path, payload):
     if good_rows > len(successes):
         V('C13', 'extra_row', 'count', f'{good_rows} rows for {len(successes)} successfully simulated iterations')
     elif good_rows < len(successes):
+        per_task_ok = collections.Counter(successes)
         if worker_writes:
-            missing = [t for t in successes if wrote.get(t, 0) == 0]
+            missing = [t for t in sorted(per_task_ok) for _ in range(max(0, per_task_ok[t] - wrote.get(t, 0)))]
         else:
             need = collections.Counter()
             missing = []
-            for t in successes:
-                key = task_key.get(t, '?')
-                need[key] += 1
-                if need[key] > row_keys.get(key, 0):
-                    missing.append(t)
+            for it in ok_iters:
+                need[it['key']] += 1
+                if need[it['key']] > row_keys.get(it['key'], 0):
+                    missing.append(it['task'])
         nlost = len(successes) - good_rows
         causes = collections.Counter()
         for t in (missing or [None] * nlost):
-            causes[_loss_cause(t, lock_events, lost_buffers, k, tasks, task_ok)] += 1
+            causes[_loss_cause(t, lock_events, lost_buffers, k, tasks_by_id, task_ok)] += 1
         rec['lost_rows'] = dict(causes)
         expl = ('lock_timeout', 'killed', 'pool_broken')
         if strict or any(not cause.startswith(expl) for cause in causes):
@@ -578,6 +598,17 @@ def analyse(rec, c, k, out_path, inp_path, payload):
                       f'({good_rows} rows for {len(successes)} successes); tasks {missing[:6]}')
         else:
             rec['explained_loss'] = dict(causes)
+        unexplained = sum(n for cause, n in causes.items() if not cause.startswith(expl))
+        if unexplained:
+            if rec['failed_iterations']:
+                # C14 "an iteration that fails affects only its own row": judged at batch level (check_mc keeps this only if
+                # runs WITHOUT failing iterations lose nothing, i.e. the loss really is tied to a failure)
+                V('C14', 'failure_leak', 'rows_missing_when_another_iteration_failed',
+                  f"{unexplained} successfully simulated iteration(s) have no row in a run where {rec['failed_iterations']} other "
+                  f'iteration(s) failed ({good_rows} rows for {len(successes)} successes)')
+                viol[-1]['conditional'] = 'no_loss_without_failures'
+            else:
+                rec['lost_without_failures'] = True
     # --- C13: independence / support --------------------------------------------------
     cont = [j for j, i in enumerate(c['inputs']) if not i['discrete']]
     vecs = collections.Counter()
@@ -603,9 +634,9 @@ def analyse(rec, c, k, out_path, inp_path, payload):
           f'({len(vecs)} distinct); e.g. {ex[0]} x{ex[1]}; workers used {len(workers_used)}')
     # per-task view (includes failed iterations, whose samples never reach a row)
     tvecs = collections.Counter()
-    if cont and len(sampled) > 1:
-        for t, key in task_key.items():
-            parts = [x.split(':', 1) for x in key.split(';') if x]
+    if cont and len(iters) > 1:
+        for it in iters:
+            parts = [x.split(':', 1) for x in it['key'].split(';') if x]
             if len(parts) == len(c['inputs']) and all(len(x) == 2 for x in parts):
                 tvecs[tuple(parts[j][1] for j in cont)] += 1
         tdup = sum(n for n in tvecs.values() if n > 1)
@@ -684,7 +715,7 @@ def _loss_cause(t, lock_events, lost_buffers, k, tasks, task_ok):
     if t is None:
         return 'unknown'
     ev = lock_events.get(t, [])
-    task = tasks[t] if t < len(tasks) else None
+    task = tasks.get(t)
     acq = [e for e in ev if e[0] == 'lock_acquire']
     rel = [e for e in ev if e[0] == 'lock_release']
     if acq and not acq[-1][1]:
